@@ -1,9 +1,10 @@
 import Toq.Driver.C01
+import Toq.Driver.C02
 /-! Line-protocol driver: `<op> <json>` per input line, one JSON (or `bad-op` / `error:…`) per output line. -/
 open Lean Toq.Driver
 
 def allHandlers : List (String × Handler) :=
-  C01.handlers
+  C01.handlers ++ C02.handlers
 
 def respond (line : String) : String :=
   let line := line.trimAscii.toString
